@@ -1,6 +1,273 @@
 import Fabio.Driver.Proto
+import Fabio.Model.C09
 namespace Fabio.Driver.C09
-open Lean Fabio.Driver
+open Lean Fabio.Driver Fabio.Model.C09
 
-def streams : List (String × Handler) := []
+/-! JSON glue: byte strings travel hex-encoded. -/
+
+def hexVal (c : Char) : Option Nat :=
+  if '0' ≤ c ∧ c ≤ '9' then some (c.toNat - 48)
+  else if 'a' ≤ c ∧ c ≤ 'f' then some (c.toNat - 87)
+  else if 'A' ≤ c ∧ c ≤ 'F' then some (c.toNat - 55)
+  else none
+
+def hexDecodeL : List Char → Except String Bytes
+  | [] => .ok []
+  | [_] => .error "odd hex length"
+  | a :: b :: r =>
+    match hexVal a, hexVal b with
+    | some x, some y => do let t ← hexDecodeL r; pure (UInt8.ofNat (x * 16 + y) :: t)
+    | _, _ => .error "bad hex digit"
+
+def hexDecode (s : String) : Except String Bytes := hexDecodeL s.toList
+
+def hexDigit (n : Nat) : Char := if n < 10 then Char.ofNat (48 + n) else Char.ofNat (87 + n)
+
+def hexEncode (bs : Bytes) : String :=
+  String.ofList (bs.foldr (fun b acc => hexDigit (b.toNat / 16) :: hexDigit (b.toNat % 16) :: acc) [])
+
+def parseSeg (j : Json) : Except String ReadEv :=
+  match j.getObjValAs? String "e" with
+  | .ok "eof" => .ok .eof
+  | .ok "err" => .ok .err
+  | .ok "" | .error _ => do
+    let c ← j.getObjValAs? String "c" <|> pure ""
+    let b ← hexDecode c
+    pure (.chunk b)
+  | .ok e => .error s!"bad read event {e}"
+
+def parseScript (j : Json) (key : String) : Except String Script := do
+  match j.getObjVal? key with
+  | .ok (.arr a) => a.toList.mapM parseSeg
+  | .ok .null | .error _ => pure []
+  | .ok _ => .error s!"{key}: not an array"
+
+def parseHexes (j : Json) (key : String) : Except String Bytes := do
+  match j.getObjVal? key with
+  | .ok (.arr a) =>
+    let bs ← a.toList.mapM (fun x => do let s ← x.getStr?; hexDecode s)
+    pure bs.flatten
+  | .ok .null | .error _ => pure []
+  | .ok _ => .error s!"{key}: not an array"
+
+def parseWrites (j : Json) : Except String WScript := do
+  match j.getObjVal? "writes" with
+  | .ok (.arr a) => a.toList.mapM (fun x => do
+      let k ← x.getObjValAs? String "k"
+      let n ← x.getObjValAs? Nat "n" <|> pure 0
+      match k with
+      | "full" => pure WriteEv.full
+      | "short" => pure (WriteEv.short n)
+      | "fail" => pure (WriteEv.fail n)
+      | _ => .error "bad write event")
+  | .ok .null | .error _ => pure []
+  | .ok _ => .error "writes: not an array"
+
+def isPrefix (a b : Bytes) : Bool := b.take a.length == a
+
+def numChunks (s : Script) : Nat := (s.takeWhile (fun e => match e with | .chunk _ => true | _ => false)).length
+
+/-! ### c09.copy -/
+
+def copyErrName : CopyErr → String
+  | .none => "none" | .read => "read" | .write => "write" | .shortWrite => "short" | .stuck => "stuck"
+
+def copyH : Handler := fun inp impl => do
+  let s ← parseScript inp "reads"
+  let w ← parseWrites inp
+  let r := copyBuffer copyBufSize s w
+  let m := Json.mkObj [("written", hexEncode r.written), ("counter", r.counter), ("err", copyErrName r.err)]
+  -- specification on the implementation's own output
+  let iw ← (do let x ← impl.getObjValAs? String "written"; hexDecode x) <|> pure []
+  let ie := (impl.getObjValAs? String "err").toOption.getD "?"
+  let ic := (impl.getObjValAs? Nat "counter").toOption.getD 0
+  let stream := streamOf s
+  let clean := ie == "none" || ie == "read"
+  let spec := isPrefix iw stream && ic == iw.length &&
+    (!clean || (iw == stream && (ie == "none") == (endOf s == .eof))) &&
+    (clean || ie == "write" || ie == "short") && (w != [] || clean)
+  let big := s.any (fun e => match e with | .chunk b => b.length > copyBufSize | _ => false)
+  return ({ model := m, agree := m == impl, spec := spec, nontrivial := numChunks s ≥ 2 || big,
+            tag := copyErrName r.err ++ (if big then "-big" else "") } : Verdict).toJson
+
+/-! ### c09.bufio -/
+
+def allBytes : Script → Nat
+  | [] => 0
+  | .chunk b :: r => b.length + allBytes r
+  | _ :: r => allBytes r
+
+def fullErrName : Option FullErr → String
+  | none => "none" | some .eof => "eof" | some .unexpectedEOF => "unexpected" | some .err => "err"
+def rdErrName : Option RdErr → String
+  | none => "none" | some .eof => "eof" | some .err => "err"
+def peekErrName : Option PeekErr → String
+  | none => "none" | some .bufferFull => "full" | some (.rd .eof) => "eof" | some (.rd .err) => "err"
+
+def bufioH : Handler := fun inp impl => do
+  let s ← parseScript inp "reads"
+  let size ← inp.getObjValAs? Nat "size"
+  let size := max size 16
+  let ops ← match inp.getObjVal? "ops" with
+    | .ok (.arr a) => a.toList.mapM (fun x => do
+        let o ← x.getObjValAs? String "op"; let n ← x.getObjValAs? Nat "n"; pure (o, n))
+    | _ => pure []
+  let total := allBytes s
+  let mut b := BufReader.new s size
+  let mut outs : Array Json := #[]
+  for (o, n) in ops do
+    let (d, e, b') ← match o with
+      | "peek" => let (d, e, b') := b.peek n; pure (d, peekErrName e, b')
+      | "read" => let (d, e, b') := b.read n; pure (d, rdErrName e, b')
+      | "full" => let (d, e, b') := b.readFull n; pure (d, fullErrName e, b')
+      | _ => throw "bad op"
+    b := b'
+    outs := outs.push (Json.mkObj [("d", hexEncode d), ("e", e), ("buffered", b.buf.length), ("pulled", total - allBytes b.conn)])
+  let m := Json.arr outs
+  -- specification: conservation (consumed + buffered = pulled) and order (what was handed out is the
+  -- stream, in order, each byte once), on the real bufio.Reader's answers
+  let stream := streamOf s
+  let ir := match impl with | .arr a => a.toList | _ => []
+  let mut consumed : Nat := 0
+  let mut ok := ir.length == ops.length
+  for ((o, _), r) in ops.zip ir do
+    let d ← (do let x ← r.getObjValAs? String "d"; hexDecode x) <|> pure []
+    let bu := (r.getObjValAs? Nat "buffered").toOption.getD 0
+    let pu := (r.getObjValAs? Nat "pulled").toOption.getD 0
+    if !(isPrefix d (stream.drop consumed)) then ok := false
+    if o != "peek" then consumed := consumed + d.length
+    if consumed + bu != pu then ok := false
+  let sni := match ops with | ("peek", 9) :: ("full", _) :: _ => true | _ => false
+  return ({ model := m, agree := m == impl, spec := ok, nontrivial := numChunks s ≥ 2,
+            tag := (if sni then "peek9-full" else "mixed") ++ (if size == 4096 then "-4096" else "-small") } : Verdict).toJson
+
+/-! ### c09.pxyhdr -/
+
+/-- host and port texts of `"1.2.3.4:80"` / `"[::1]:80"` (the last colon separates the port). -/
+def splitHostPort (s : List Char) : List Char × List Char :=
+  match Fabio.lastIndexOf ':' s with
+  | none => (s, [])
+  | some i =>
+    let h := s.take i
+    let p := s.drop (i + 1)
+    let h := match h with
+      | '[' :: r => if r.getLast? == some ']' then r.dropLast else h
+      | _ => h
+    (h, p)
+
+def splitOn (c : Char) (s : List Char) : List (List Char) :=
+  let rec go (cur : List Char) : List Char → List (List Char)
+    | [] => [cur.reverse]
+    | x :: xs => if x = c then cur.reverse :: go [] xs else go (x :: cur) xs
+  go [] s
+
+def bytesToChars (b : Bytes) : List Char := b.map (fun x => Char.ofNat x.toNat)
+
+def proxyLineFor (raddr laddr : String) : Bytes :=
+  let (ch, cp) := splitHostPort raddr.toList
+  let (sh, sp) := splitHostPort laddr.toList
+  asciiBytes (proxyHeader ch cp sh sp)
+
+/-- PROXY protocol v1 shape of a line, for the given peer/local address texts. -/
+def pxySpec (line : Bytes) (raddr laddr : String) : Bool :=
+  let (ch, cp) := splitHostPort raddr.toList
+  let (sh, sp) := splitHostPort laddr.toList
+  let cs := bytesToChars line
+  let fam := if ch.contains ':' || !ch.contains '.' then "TCP6" else "TCP4"
+  cs.length ≤ 107 && cs.getLast? == some '\n' && (cs.dropLast).getLast? == some '\r' &&
+  splitOn ' ' (cs.dropLast.dropLast) == ["PROXY".toList, fam.toList, ch, sh, cp, sp]
+
+def pxyH : Handler := fun _inp impl => do
+  let line ← (do let x ← impl.getObjValAs? String "line"; hexDecode x)
+  let ra ← impl.getObjValAs? String "raddr"
+  let la ← impl.getObjValAs? String "laddr"
+  let m := proxyLineFor ra la
+  let v6 (s : String) := (splitHostPort s.toList).1.contains ':'
+  return ({ model := Json.str (hexEncode m), agree := m == line, spec := pxySpec line ra la, nontrivial := true,
+            tag := if v6 ra != v6 la then "mixed" else if v6 ra then "tcp6" else "tcp4" } : Verdict).toJson
+
+/-! ### c09.tunnel / c09.ws -/
+
+def parseOrder : String → Except String CloseOrder
+  | "client" => pure .client | "upstream" => pure .upstream | "halfclose" => pure .halfClose
+  | o => .error s!"bad order {o}"
+
+/-- Does the client stream start with a complete ClientHello record the proxy accepts? -/
+def helloOk (stream : Bytes) : Bool :=
+  match helloSize (stream.take 9) with
+  | some n => n ≤ stream.length
+  | none => false
+
+def tunnelH : Handler := fun inp impl => do
+  let path ← inp.getObjValAs? String "path"
+  let pxy ← inp.getObjValAs? Bool "pxy" <|> pure false
+  let routed ← inp.getObjValAs? Bool "routed" <|> pure true
+  let order ← (do let o ← inp.getObjValAs? String "order"; parseOrder o)
+  let s ← parseScript inp "csegs"
+  let ustream ← parseHexes inp "usegs"
+  let reply ← parseHexes inp "reply"
+  let reply := if order == .halfClose then reply else []
+  let iup ← (do let x ← impl.getObjValAs? String "up"; hexDecode x)
+  let icl ← (do let x ← impl.getObjValAs? String "cl"; hexDecode x)
+  let ra := (impl.getObjValAs? String "raddr").toOption.getD ""
+  let la := (impl.getObjValAs? String "laddr").toOption.getD ""
+  let line := if pxy then proxyLineFor ra la else []
+  let stream := streamOf s
+  -- the model of the code as it is
+  let codeLine := if path == "dyn" && !dynWritesProxyHeader then [] else line
+  let (tunnel, pre, fwd, excess) : Bool × Bytes × Bytes × Bytes :=
+    if path == "sni" then
+      let r := sniServe codeCopySrc routed codeLine s
+      let x := (sniServe .rawConn routed codeLine s).excess
+      if r.stage == .tunnel then (true, codeLine ++ r.hello, r.upstream.drop (codeLine ++ r.hello).length, x)
+      else (false, [], [], x)
+    else if routed then (true, codeLine, (tcpServe [] s).1, []) else (false, [], [], [])
+  let t := scenario .firstEnds pre fwd ustream reply order
+  let (mup, mcl) := if tunnel then (t.upSaw, t.clSaw) else ([], [])
+  let m := Json.mkObj [("up", hexEncode mup), ("cl", hexEncode mcl)]
+  -- the specification, on what the endpoints actually received
+  -- "once a connection is tunnelled": the proxy's own Lookup call returned a target (observed, so that a
+  -- shrunk input whose `routed`/`host` fields no longer fit its bytes cannot fake a failure)
+  let expectTunnel := (impl.getObjValAs? String "lookup").toOption == some "hit"
+  let wantUp := line ++ stream
+  let wantCl := ustream ++ reply
+  let spec := !expectTunnel || (iup == wantUp && icl == wantCl)
+  let segs := numChunks s
+  let tag :=
+    if !expectTunnel then path ++ "-no-tunnel"
+    else if order == .halfClose then
+      (if iup == wantUp && isPrefix ustream icl && isPrefix icl wantCl then "half-close-reply" else "half-close-other")
+    else if path == "dyn" && pxy && !dynWritesProxyHeader then "dyn-pxyproto-ignored"
+    else path ++ (match order with | .client => "-client" | .upstream => "-upstream" | .halfClose => "-half") ++
+      (if excess != [] then "-readahead" else "") ++ (if pxy then "-pxy" else "")
+  return ({ model := m, agree := mup == iup && mcl == icl, spec := spec,
+            nontrivial := expectTunnel && stream != [] && (segs ≥ 2 || ustream != []),
+            tag := tag } : Verdict).toJson
+
+def wsH : Handler := fun inp impl => do
+  let order ← (do let o ← inp.getObjValAs? String "order"; parseOrder o)
+  let s ← parseScript inp "csegs"
+  let ustream ← parseHexes inp "usegs"
+  let extra ← parseHexes inp "u101extra"
+  let reply ← parseHexes inp "reply"
+  let reply := if order == .halfClose then reply else []
+  let iup ← (do let x ← impl.getObjValAs? String "up"; hexDecode x)
+  let icl ← (do let x ← impl.getObjValAs? String "cl"; hexDecode x)
+  let hs := (impl.getObjValAs? Bool "handshake").toOption.getD false
+  let stream := streamOf s
+  let t := scenario .firstEnds [] (tcpServe [] s).1 (extra ++ ustream) reply order
+  let m := Json.mkObj [("up", hexEncode t.upSaw), ("cl", hexEncode t.clSaw)]
+  let wantCl := extra ++ ustream ++ reply
+  let spec := hs && iup == stream && icl == wantCl
+  let tag :=
+    if !hs then "handshake-failed"
+    else if order == .halfClose then
+      (if iup == stream && isPrefix (extra ++ ustream) icl && isPrefix icl wantCl then "half-close-reply" else "half-close-other")
+    else "ws" ++ (match order with | .client => "-client" | .upstream => "-upstream" | .halfClose => "-half") ++
+      (if extra != [] then "-with101" else "")
+  return ({ model := m, agree := hs && t.upSaw == iup && t.clSaw == icl, spec := spec,
+            nontrivial := stream != [] && (numChunks s ≥ 2 || ustream != []), tag := tag } : Verdict).toJson
+
+def streams : List (String × Handler) :=
+  [("c09.copy", copyH), ("c09.bufio", bufioH), ("c09.pxyhdr", pxyH), ("c09.tunnel", tunnelH), ("c09.ws", wsH)]
 end Fabio.Driver.C09
